@@ -4,8 +4,8 @@ import hashlib
 
 CXX = {0: "bool", 1: "std::uint8_t", 2: "signed char", 3: "std::uint16_t", 4: "std::int16_t", 5: "std::uint32_t",
        6: "std::int32_t", 7: "std::uint64_t", 8: "std::int64_t", 9: "float", 10: "double", 11: "vc::E8", 12: "vc::E32",
-       13: "vc::D*", 14: "vc::B2*", 15: "vc::B1*", 16: "vc::Fahr", 17: "vc::Cels", 18: "vc::Wrap", 19: "vc::Mv", 20: "vc::Raw", 21: "vc::Handle"}
-SIZE = {0: 1, 1: 1, 2: 1, 3: 2, 4: 2, 5: 4, 6: 4, 7: 8, 8: 8, 9: 4, 10: 8, 11: 1, 12: 4, 13: 8, 14: 8, 15: 8, 16: 4, 17: 4, 18: 4, 19: 8, 20: 4, 21: 8}
+       13: "vc::D*", 14: "vc::B2*", 15: "vc::B1*", 16: "vc::Fahr", 17: "vc::Cels", 18: "vc::Wrap", 19: "vc::Mv", 20: "vc::Raw", 21: "vc::Handle", 22: "vc::Tok"}
+SIZE = {0: 1, 1: 1, 2: 1, 3: 2, 4: 2, 5: 4, 6: 4, 7: 8, 8: 8, 9: 4, 10: 8, 11: 1, 12: 4, 13: 8, 14: 8, 15: 8, 16: 4, 17: 4, 18: 4, 19: 8, 20: 4, 21: 8, 22: 8}
 SIGNED = {2, 4, 6, 8, 12, 16, 17, 18}
 # (T, U): stored type <- source type
 PAIRS = [(1, 1), (6, 6), (9, 9), (10, 10), (7, 7), (0, 0), (11, 11), (16, 16), (19, 19), (13, 13),
@@ -15,7 +15,8 @@ PAIRS = [(1, 1), (6, 6), (9, 9), (10, 10), (7, 7), (0, 0), (11, 11), (16, 16), (
          (3, 1), (5, 1), (4, 6), (0, 5),
          (14, 13), (15, 13),
          (17, 16), (6, 18), (8, 18), (5, 18),
-         (21, 20), (20, 20), (21, 21)]            # Handle <- Raw: T(item) vs T(std::move(item)) differ for a trivially copyable source
+         (21, 20), (20, 20), (21, 21),
+         (22, 22)]           # trivially copy constructible, move constructor user-provided            # Handle <- Raw: T(item) vs T(std::move(item)) differ for a trivially copyable source
 FORMS_FIXED = [(0, 0), (0, 1), (1, 0), (1, 1), (2, 0), (3, 0), (3, 1), (4, 0), (5, 0), (6, 0), (7, 0), (8, 0), (9, 0)]
 FORMS_VARYING = [(0, 0), (0, 1), (1, 0), (2, 0)]
 
@@ -61,7 +62,7 @@ def rand_value(u, rng, t=None):
         return 24 * rng.randrange(0, 100)
     if u in (9, 10):
         return rng.choice([0, 1, 2, 3, 7, 255, 256, 1000, 65535, 100000])
-    if u == 19:
+    if u in (19, 22):
         return rng.choice([0, 1, 2, 77, 12345, 2 ** 31 - 1])
     if u == 20:
         return rng.choice([0, 1, 2, 77, 12345, 2 ** 31 - 1])
